@@ -19,16 +19,16 @@ def hold (s : S) (rem : List Item) (q p m : Nat) : Nat :=
   (if q = 2 then qcM s.recQ p m + rem.countP (isRecM p m) + waitM s p m + qcM s.compQ p m + rem.countP (isCompM p m) else 0)
 
 def InvM (hist : List Ev) (s : S) (rem : List Item) : Prop :=
-  ∀ q p m, cnt (isDeliverMsg q p m) hist + hold s rem q p m ≤ cnt (isRxPubMsg q p m) hist
+  ∀ q p m, m ≠ 0 → cnt (isDeliverMsg q p m) hist + hold s rem q p m ≤ cnt (isRxPubMsg q p m) hist
 
 theorem invM_step {hist : List Ev} {s s' : S} {rem rem' : List Item} {e : Ev} (I : InvM hist s rem)
-    (h : ∀ q p m, (isDeliverMsg q p m e).toNat + hold s' rem' q p m ≤ hold s rem q p m + (isRxPubMsg q p m e).toNat) :
+    (h : ∀ q p m, m ≠ 0 → (isDeliverMsg q p m e).toNat + hold s' rem' q p m ≤ hold s rem q p m + (isRxPubMsg q p m e).toNat) :
     InvM (hist ++ [e]) s' rem' := by
-  intro q p m; have := I q p m; have := h q p m; simp only [cnt_snoc']; omega
+  intro q p m hm; have := I q p m hm; have := h q p m hm; simp only [cnt_snoc']; omega
 
 theorem invM_weaken {hist : List Ev} {s s' : S} {rem rem' : List Item} (I : InvM hist s rem)
-    (h : ∀ q p m, hold s' rem' q p m ≤ hold s rem q p m) : InvM hist s' rem' := by
-  intro q p m; have := I q p m; have := h q p m; omega
+    (h : ∀ q p m, m ≠ 0 → hold s' rem' q p m ≤ hold s rem q p m) : InvM hist s' rem' := by
+  intro q p m hm; have := I q p m hm; have := h q p m hm; omega
 
 theorem qcM_append (q : List (Nat × Nat)) (x : Nat × Nat) (p m : Nat) : qcM (q ++ [x]) p m = qcM q p m + (x.1 == p && x.2 == m).toNat := by
   simp only [qcM, List.countP_append, List.countP_cons, List.countP_nil]
@@ -112,7 +112,7 @@ theorem beq_comm3 (a q : Nat) (x y : Bool) : (a == q && x && y) = (q == a && x &
 
 theorem finishOk_invM {hist : List Ev} {s : S} {it : Item} {rest : List Item} (I : InvM hist s (it :: rest)) : InvM hist (finishOk s it) rest := by
   refine invM_weaken I ?_
-  intro q p m; rw [hold_cons]
+  intro q p m _hm; rw [hold_cons]
   cases it with
   | ackI pid msg =>
     simp only [finishOk, hold_stored, itemW]
@@ -124,7 +124,7 @@ theorem finishOk_invM {hist : List Ev} {s : S} {it : Item} {rest : List Item} (I
 
 theorem finishFail_invM {hist : List Ev} {s : S} {it : Item} {rest : List Item} (I : InvM hist s (it :: rest)) : InvM hist (finishFail s it) rest := by
   refine invM_weaken I ?_
-  intro q p m; rw [hold_cons]
+  intro q p m _hm; rw [hold_cons]
   cases it with
   | ackI pid msg => simp only [finishFail]; omega
   | recI pid msg => simp only [finishFail]; omega
@@ -177,7 +177,7 @@ theorem hold_append_comp (s : S) (q0 : List (Nat × Nat)) (rem : List Item) (q p
 def InvMsg (hist : List Ev) (s : S) : Prop := InvM hist s s.batch
 
 theorem invMsg_init : InvMsg [] init := by
-  intro q p m; simp [cnt, init, hold, storedM, qcM, waitM]
+  intro q p m _hm; simp [cnt, init, hold, storedM, qcM, waitM]
 
 theorem hold_congr {s s' : S} {rem : List Item} (h1 : s'.stored = s.stored) (h2 : s'.ackQ = s.ackQ) (h3 : s'.recQ = s.recQ)
     (h4 : s'.compQ = s.compQ) (h5 : s'.waiter = s.waiter) (q p m : Nat) : hold s' rem q p m = hold s rem q p m := by
@@ -187,8 +187,9 @@ theorem msg_step (hist : List Ev) (s : S) (e : Ev) (s' : S) (I : InvMsg hist s) 
   unfold InvMsg at *
   cases e with
   | connUp sp =>
-    simp only [step, Option.some.injEq] at h; subst h
-    have hs : ∀ (s0 : S), s0.ackQ = s.ackQ → s0.recQ = s.recQ → s0.compQ = s.compQ → s0.stored = s.stored → s0.batch = s.batch →
+    simp only [step] at h
+    have hs : ∀ (s0 : S), s0.ackQ = s.ackQ → s0.recQ = s.recQ → s0.compQ = s.compQ →
+        (∀ q p m, m ≠ 0 → storedM s0 q p m = storedM s q p m) → s0.batch = s.batch →
         (∀ p m, waitM s0 p m ≤ waitM s p m) →
         InvM (hist ++ [Ev.connUp sp]) (requeue s0) (requeue s0).batch := by
       intro s0 e1 e2 e3 e5 e6 e7
@@ -198,31 +199,42 @@ theorem msg_step (hist : List Ev) (s : S) (e : Ev) (s' : S) (I : InvMsg hist s) 
       unfold requeue
       apply drain_invM (fun s it => finishFail s it) (fun s it rest => finishFail_invM) _ s0.batch
       refine invM_step I ?_
-      intro q p m
+      intro q p m hm
       have h1 : hold { s0 with ackQ := [], recQ := [], compQ := [] } ((s0.compQ.map fun x => Item.compI x.1 x.2) ++ s0.batch) q p m
           ≤ hold s0 s0.batch q p m := hold_append_comp s0 s0.compQ s0.batch q p m
       have h2 : hold s0 s0.batch q p m ≤ hold s s.batch q p m := by
         have := e7 p m
-        simp only [hold, storedM, e1, e2, e3, e5, e6]
+        have h5 := e5 q p m hm
+        simp only [hold, e1, e2, e3, e6, h5]
         split <;> split <;> omega
       simp only [isDeliverMsg, isRxPubMsg, Bool.toNat_false]; omega
-    split
-    · exact hs s rfl rfl rfl rfl rfl (fun _ _ => Nat.le_refl _)
-    · exact hs _ rfl rfl rfl rfl rfl (by intro p m; simp [waitM])
+    split at h
+    · simp only [Option.some.injEq] at h; subst h
+      exact hs s rfl rfl rfl (fun _ _ _ _ => rfl) rfl (fun _ _ => Nat.le_refl _)
+    · simp only [Option.some.injEq] at h; subst h
+      refine hs _ rfl rfl rfl ?_ rfl (by intro p m; simp [waitM])
+      intro q p m hm
+      simp only [storedM]; split
+      · rw [storedM_append]
+        have : ((9 : Nat) == q && (0 : Nat) == p && (0 : Nat) == m) = false := by
+          have : ((0 : Nat) == m) = false := by simpa using fun h : 0 = m => hm h.symm
+          simp [this]
+        simp [this]
+      · rfl
   | rxPub qos pid msg =>
     simp only [step] at h
     split at h
     · rename_i hq; subst hq
       simp only [Option.some.injEq] at h; subst h
       refine invM_step I ?_
-      intro q p m; rw [hold_stored]
+      intro q p m _hm; rw [hold_stored]
       simp only [isDeliverMsg, isRxPubMsg, Bool.toNat_false]
       rw [beq_comm3 0 q]; omega
     · split at h
       · rename_i hq; subst hq
         simp only [Option.some.injEq] at h; subst h
         refine invM_step I ?_
-        intro q p m
+        intro q p m _hm
         simp only [isDeliverMsg, isRxPubMsg, Bool.toNat_false, hold, storedM, waitM, qcM_append]
         by_cases h1 : q = 1
         · subst h1; simp; omega
@@ -232,7 +244,7 @@ theorem msg_step (hist : List Ev) (s : S) (e : Ev) (s' : S) (I : InvMsg hist s) 
         · rename_i hq; subst hq
           simp only [Option.some.injEq] at h; subst h
           refine invM_step I ?_
-          intro q p m
+          intro q p m _hm
           simp only [isDeliverMsg, isRxPubMsg, Bool.toNat_false, hold, storedM, waitM, qcM_append]
           by_cases h2 : q = 2
           · subst h2; simp; omega
@@ -244,12 +256,12 @@ theorem msg_step (hist : List Ev) (s : S) (e : Ev) (s' : S) (I : InvMsg hist s) 
     split at h
     · simp only [Option.some.injEq] at h; subst h
       refine invM_step I ?_
-      intro q p m; simp [isDeliverMsg, isRxPubMsg]
+      intro q p m _hm; simp [isDeliverMsg, isRxPubMsg]
     · split at h
       · rename_i m0 hm
         simp only [Option.some.injEq] at h; subst h
         refine invM_step I ?_
-        intro q p m
+        intro q p m _hm
         simp only [isDeliverMsg, isRxPubMsg, Bool.toNat_false, hold, storedM, waitM, qcM_append, upd]
         by_cases h2 : q = 2
         · subst h2; simp only [if_true]
@@ -264,13 +276,13 @@ theorem msg_step (hist : List Ev) (s : S) (e : Ev) (s' : S) (I : InvMsg hist s) 
         · simp [h2]
       · simp only [Option.some.injEq] at h; subst h
         refine invM_step I ?_
-        intro q p m; simp only [isDeliverMsg, isRxPubMsg, Bool.toNat_false, Nat.zero_add, Nat.add_zero]; exact Nat.le_of_eq (hold_congr rfl rfl rfl rfl rfl q p m)
+        intro q p m _hm; simp only [isDeliverMsg, isRxPubMsg, Bool.toNat_false, Nat.zero_add, Nat.add_zero]; exact Nat.le_of_eq (hold_congr rfl rfl rfl rfl rfl q p m)
   | wr =>
     simp only [step] at h; split at h
     · simp at h
     · simp only [Option.some.injEq] at h; subst h
       refine invM_step I ?_
-      intro q p m; simp only [isDeliverMsg, isRxPubMsg, Bool.toNat_false, Nat.zero_add, Nat.add_zero]; exact Nat.le_of_eq (hold_congr rfl rfl rfl rfl rfl q p m)
+      intro q p m _hm; simp only [isDeliverMsg, isRxPubMsg, Bool.toNat_false, Nat.zero_add, Nat.add_zero]; exact Nat.le_of_eq (hold_congr rfl rfl rfl rfl rfl q p m)
   | pk p0 =>
     simp only [step] at h; split at h
     · cases p0 with
@@ -279,7 +291,7 @@ theorem msg_step (hist : List Ev) (s : S) (e : Ev) (s' : S) (I : InvMsg hist s) 
         obtain ⟨⟨m0, rest⟩, hp, rfl⟩ := h
         have hq := pop_specM hp
         refine invM_step I ?_
-        intro q p m; have := hq p m
+        intro q p m _hm; have := hq p m
         simp only [isDeliverMsg, isRxPubMsg, Bool.toNat_false, hold, storedM, waitM, List.countP_append, countP_cons_toNat, List.countP_nil, isAckM, isRecM, isCompM]
         split <;> split <;> simp <;> omega
       | pubrec pid =>
@@ -287,7 +299,7 @@ theorem msg_step (hist : List Ev) (s : S) (e : Ev) (s' : S) (I : InvMsg hist s) 
         obtain ⟨⟨m0, rest⟩, hp, rfl⟩ := h
         have hq := pop_specM hp
         refine invM_step I ?_
-        intro q p m; have := hq p m
+        intro q p m _hm; have := hq p m
         simp only [isDeliverMsg, isRxPubMsg, Bool.toNat_false, hold, storedM, waitM, List.countP_append, countP_cons_toNat, List.countP_nil, isAckM, isRecM, isCompM]
         split <;> split <;> simp <;> omega
       | pubcomp pid =>
@@ -295,13 +307,13 @@ theorem msg_step (hist : List Ev) (s : S) (e : Ev) (s' : S) (I : InvMsg hist s) 
         obtain ⟨⟨m0, rest⟩, hp, rfl⟩ := h
         have hq := pop_specM hp
         refine invM_step I ?_
-        intro q p m; have := hq p m
+        intro q p m _hm; have := hq p m
         simp only [isDeliverMsg, isRxPubMsg, Bool.toNat_false, hold, storedM, waitM, List.countP_append, countP_cons_toNat, List.countP_nil, isAckM, isRecM, isCompM]
         split <;> split <;> simp <;> omega
       | other =>
         simp only [stepPk, Option.some.injEq] at h; subst h
         refine invM_step I ?_
-        intro q p m; simp [isDeliverMsg, isRxPubMsg]
+        intro q p m _hm; simp [isDeliverMsg, isRxPubMsg]
     · simp at h
   | wrOk =>
     simp only [step] at h; split at h
@@ -310,7 +322,7 @@ theorem msg_step (hist : List Ev) (s : S) (e : Ev) (s' : S) (I : InvMsg hist s) 
       apply drain_invM finishOk (fun s it rest => finishOk_invM) s.batch []
       simp only [List.append_nil]
       refine invM_step I ?_
-      intro q p m; simp only [isDeliverMsg, isRxPubMsg, Bool.toNat_false, Nat.zero_add, Nat.add_zero]; exact Nat.le_of_eq (hold_congr rfl rfl rfl rfl rfl q p m)
+      intro q p m _hm; simp only [isDeliverMsg, isRxPubMsg, Bool.toNat_false, Nat.zero_add, Nat.add_zero]; exact Nat.le_of_eq (hold_congr rfl rfl rfl rfl rfl q p m)
     · simp at h
   | wrFail =>
     simp only [step] at h; split at h
@@ -319,7 +331,7 @@ theorem msg_step (hist : List Ev) (s : S) (e : Ev) (s' : S) (I : InvMsg hist s) 
       apply drain_invM finishFail (fun s it rest => finishFail_invM) s.batch []
       simp only [List.append_nil]
       refine invM_step I ?_
-      intro q p m; simp only [isDeliverMsg, isRxPubMsg, Bool.toNat_false, Nat.zero_add, Nat.add_zero]; exact Nat.le_of_eq (hold_congr rfl rfl rfl rfl rfl q p m)
+      intro q p m _hm; simp only [isDeliverMsg, isRxPubMsg, Bool.toNat_false, Nat.zero_add, Nat.add_zero]; exact Nat.le_of_eq (hold_congr rfl rfl rfl rfl rfl q p m)
     · simp at h
   | deliver qos pid msg =>
     simp only [step] at h
@@ -329,7 +341,7 @@ theorem msg_step (hist : List Ev) (s : S) (e : Ev) (s' : S) (I : InvMsg hist s) 
       · rename_i hx; subst hx
         simp only [Option.some.injEq] at h; subst h
         refine invM_step I ?_
-        intro q p m
+        intro q p m _hm
         simp only [isDeliverMsg, isRxPubMsg, Bool.toNat_false, hold, storedM, waitM, hst, countP_cons_toNat]
         omega
       · simp at h
@@ -337,21 +349,25 @@ theorem msg_step (hist : List Ev) (s : S) (e : Ev) (s' : S) (I : InvMsg hist s) 
   | reset =>
     simp only [step, Option.some.injEq] at h; subst h
     refine invM_step I ?_
-    intro q p m
+    intro q p m _hm
     simp only [isDeliverMsg, isRxPubMsg, Bool.toNat_false, hold, storedM, waitM, qcM, List.countP_nil]
     split <;> split <;> simp <;> omega
 
+  | subOk =>
+    simp only [step, Option.some.injEq] at h; subst h
+    refine invM_step I ?_
+    intro q p m _hm; simp only [isDeliverMsg, isRxPubMsg, Bool.toNat_false, Nat.zero_add, Nat.add_zero]; exact Nat.le_of_eq (hold_congr rfl rfl rfl rfl rfl q p m)
 theorem msg_reach {tr : List Ev} {s : S} (h : run init tr = some s) : InvMsg tr s :=
   inv_reach InvMsg invMsg_init msg_step tr s h
 
 /-- **C04 on accepted event lists**: a message is handed to the application at most as often as a PUBLISH with exactly this QoS,
 identifier and content (topic, payload, properties) was received -/
-theorem delivered_was_received {tr : List Ev} (hacc : accepts tr = true) (pre post : List Ev) (hsplit : tr = pre ++ post) (q p m : Nat) :
+theorem delivered_was_received {tr : List Ev} (hacc : accepts tr = true) (pre post : List Ev) (hsplit : tr = pre ++ post) (q p m : Nat) (hm : m ≠ 0) :
     cnt (isDeliverMsg q p m) pre ≤ cnt (isRxPubMsg q p m) pre := by
   obtain ⟨s, hr⟩ := (accepts_iff _).1 hacc
   rw [hsplit] at hr
   obtain ⟨s1, hr1, _⟩ := run_prefix hr
-  have := msg_reach hr1 q p m
+  have := msg_reach hr1 q p m hm
   omega
 
 
